@@ -339,6 +339,14 @@ def callees(world, body, include_closures=True):
                 ty = body.tys[g]
                 if ty.get("k") in ("closure", "coroutine") and ty.get("def") in world.bodies:
                     pass
+        for a in t.get("args", ()):
+            if isinstance(a, dict) and a.get("fn") in world.bodies:
+                out.add(a["fn"])      # a function item handed to a higher-order callee (e.g. for_resolved_pairs(a, b, World::hold))
+    for bb, i, st in body.all_stmts():
+        r = st["r"]
+        for o in [r.get("o"), r.get("a"), r.get("b")] + list(r.get("ops", [])):
+            if isinstance(o, dict) and o.get("fn") in world.bodies:
+                out.add(o["fn"])          # function item stored in a local (e.g. after a helper taking `op: impl FnMut` was inlined)
     if include_closures:
         for _, _, d in closures_built(body):
             if d in world.bodies:
